@@ -21,6 +21,7 @@ func checkC14(c *Check, a *Anchors) {
 	c14Runner(c, a)
 	c14ExitCode(c, a)
 	freshElements(c, a, "defer-element-fresh")
+	resolvesThroughGetTask(c, a, "resolves-through-GetTask")
 }
 
 func c14Registration(c *Check, a *Anchors) {
